@@ -133,7 +133,7 @@ CHECKS = {
            'for any other axis value one number for the whole table), min / max (per vector of the requested axis the least / '
            'greatest non-zero cell, stored zeros eliminated first; for the whole table the running minimum / maximum over the '
            'per-sample values) - over an assumed contract of iter_data and ghost functions '
-           'for the per-vector quantities. reduce, the count statistics, the CLI reports and the exports are bounded only. One '
+           'for the per-vector quantities. biom.util.compute_counts_per_sample_stats (every sample id keyed to its sum or, binary, its number of non-zero cells; minimum and maximum are figures of samples that bound all of them; zeros for a table without samples) over an assumed contract of Table.iter. reduce, median / mean, the CLI reports and the exports are bounded only. One '
            'known finding (pandas sparse fill value).', technique=TECH),
  'C20': dict(level='proof', technique=TECH,
   text='Every function of biom/err.py is verified against its contract for all inputs (Tier P): _create_error_states, '
